@@ -290,7 +290,12 @@ int main(int argc, char** argv)
         if (variant == 0) {
           sb->invoke_sandbox_function(echo2, ta, tp);
         } else {
+#ifdef C20_NO_OPAQUE_PTR_INVOKE
+          // (the opaque pointer form was rejected by the compiler: reported as a form pair)
+          sb->invoke_sandbox_function(echo2, ta.to_opaque(), tp);
+#else
           sb->invoke_sandbox_function(echo2, ta.to_opaque(), tp.to_opaque());
+#endif
         }
       } catch (const std::runtime_error&) {
         outc = "abort";
